@@ -28,14 +28,6 @@ def Safe (prog out : List Step) : Prop :=
     ∀ a ∈ g.ins, ∀ t ∈ post, t.op ≠ .gc → ∀ b ∈ t.ins, b.const = false →
       ¬ PointsInto prog b.id a.id
 
-def outs (l : List Step) : List Nat := l.filterMap Step.outId
-
-/-- Definition before use, as a check on every suffix: a value read by a step
-is not the output of that step or of a later one. -/
-def dbu : List Step → Bool
-  | [] => true
-  | s :: rest => s.ins.all (fun a => a.const || !(outs (s :: rest)).contains a.id) && dbu rest
-
 /-- What the SSA generator guarantees for the step list handed to `GC`: no
 `gc` instructions yet, single assignment, definition before use. -/
 structure WF (prog : List Step) : Prop where
@@ -692,5 +684,136 @@ theorem pad_agree (v : List Bool) (own bits : Nat) (signed : Bool) (h1 : 0 < own
     · simp [hb, hge]
     · have : own - 1 < own := by omega
       simp [hb, hge, h1, this]
+
+/-! ## `defineBeforeUse` is the identity on lists in definition-before-use order -/
+
+theorem emit_skip (prog : List Step) (f j : Nat) (st : EmitSt) (h : st.emitted.contains j = true) :
+    emit prog f j st = st := by
+  cases f with
+  | zero => rfl
+  | succ f => simp only [emit, h, if_true]
+
+theorem foldl_fix {α β : Type} (g : α → β → α) (l : List β) (x : α) (h : ∀ b ∈ l, g x b = x) :
+    l.foldl g x = x := by
+  induction l with
+  | nil => rfl
+  | cons b bs ih =>
+    rw [List.foldl_cons, h b List.mem_cons_self]
+    exact ih (fun c hc => h c (List.mem_cons_of_mem _ hc))
+
+theorem followIns_skip (prog : List Step) (f : Nat) (ins : List Arg) (st : EmitSt)
+    (h : ∀ a ∈ ins, a.const = false → ∀ j, defAt prog a.id = some j → st.emitted.contains j = true) :
+    followIns (emit prog f) prog ins st = st := by
+  unfold followIns
+  apply foldl_fix
+  intro a ha
+  show (if a.const then st
+        else match defAt prog a.id with
+          | some j => emit prog f j st
+          | none => st) = st
+  by_cases hc : a.const = true
+  · simp [hc]
+  · simp only [hc, Bool.false_eq_true, if_false]
+    cases hd : defAt prog a.id with
+    | none => rfl
+    | some j => exact emit_skip prog f j st (h a ha (by simpa using hc) j hd)
+
+theorem defAt_spec (prog : List Step) (v j : Nat) (h : defAt prog v = some j) :
+    ∃ s, prog[j]? = some s ∧ s.outId = some v := by
+  unfold defAt at h
+  cases hl : (prog.zipIdx.filter fun p => p.1.outId == some v).getLast? with
+  | none => rw [hl] at h; cases h
+  | some p =>
+    rw [hl] at h
+    simp only [Option.map_some, Option.some.injEq] at h
+    have hmem := List.mem_of_getLast? hl
+    rw [List.mem_filter] at hmem
+    obtain ⟨hz, ho⟩ := hmem
+    obtain ⟨s, i⟩ := p
+    simp only at h ho
+    subst h
+    have := List.mem_zipIdx_iff_getElem?.mp hz
+    exact ⟨s, by simpa using this, by simpa using ho⟩
+
+theorem dbu_drop (prog : List Step) (k : Nat) (h : dbu prog = true) : dbu (prog.drop k) = true := by
+  have : prog = prog.take k ++ prog.drop k := (List.take_append_drop k prog).symm
+  rw [this] at h
+  exact dbu_suffix _ _ h
+
+theorem defAt_lt (prog : List Step) (hdbu : dbu prog = true) (k : Nat) (s : Step) (hs : prog[k]? = some s)
+    (a : Arg) (ha : a ∈ s.ins) (hc : a.const = false) (j : Nat) (hj : defAt prog a.id = some j) : j < k := by
+  obtain ⟨d, hd, hdo⟩ := defAt_spec prog a.id j hj
+  by_cases hlt : j < k
+  · exact hlt
+  · exfalso
+    have hdrop : prog.drop k = s :: prog.drop (k + 1) := by
+      have hk : k < prog.length := by
+        rcases List.getElem?_eq_some_iff.mp hs with ⟨hk, _⟩; exact hk
+      rw [List.drop_eq_getElem_cons hk]
+      have : prog[k] = s := by
+        rcases List.getElem?_eq_some_iff.mp hs with ⟨_, h⟩; exact h
+      rw [this]
+    have h1 := dbu_drop prog k hdbu
+    rw [hdrop] at h1
+    simp only [dbu, Bool.and_eq_true, List.all_eq_true] at h1
+    have h2 := h1.1 a ha
+    simp only [hc, Bool.false_or, Bool.not_eq_true', List.contains_eq_mem, decide_eq_false_iff_not] at h2
+    apply h2
+    rw [← hdrop]
+    apply mem_outs.mpr
+    refine ⟨d, ?_, hdo⟩
+    have hjk : k ≤ j := by omega
+    have : (prog.drop k)[j - k]? = some d := by
+      rw [List.getElem?_drop]
+      have : k + (j - k) = j := by omega
+      rw [this]; exact hd
+    exact List.mem_of_getElem? this
+
+theorem defineBeforeUse_id (prog : List Step) (hdbu : dbu prog = true) : defineBeforeUse prog = prog := by
+  unfold defineBeforeUse
+  have key : ∀ k, k ≤ prog.length →
+      let st := (List.range k).foldl (fun st i => emit prog (prog.length + 1) i st) {}
+      st.out = prog.take k ∧ ∀ j, st.emitted.contains j = true ↔ j < k := by
+    intro k
+    induction k with
+    | zero => intro _; simp
+    | succ k ih =>
+      intro hk
+      have hk' : k < prog.length := by omega
+      obtain ⟨hout, hem⟩ := ih (by omega)
+      simp only [List.range_succ, List.foldl_append, List.foldl_cons, List.foldl_nil]
+      generalize hst : (List.range k).foldl (fun st i => emit prog (prog.length + 1) i st) {} = st at hout hem
+      have hnot : st.emitted.contains k = false := by
+        cases hcon : st.emitted.contains k
+        · rfl
+        · have := (hem k).mp hcon; omega
+      have hget : prog[k]? = some prog[k] := List.getElem?_eq_getElem hk'
+      simp only [emit, hnot, Bool.false_eq_true, if_false, hget]
+      rw [followIns_skip]
+      · constructor
+        · simp only [hout]
+          rw [List.take_add_one, hget]
+          rfl
+        · intro j
+          have hem' : j ∈ st.emitted ↔ j < k := by
+            have := hem j
+            simpa using this
+          simp only [List.contains_eq_mem, decide_eq_true_eq, List.mem_cons]
+          constructor
+          · intro h
+            rcases h with h | h
+            · omega
+            · have := hem'.mp h; omega
+          · intro h
+            by_cases hjk : j = k
+            · exact Or.inl hjk
+            · exact Or.inr (hem'.mpr (by omega))
+      · intro a ha hc j hj
+        have hlt := defAt_lt prog hdbu k prog[k] hget a ha hc j hj
+        have := (hem j).mpr hlt
+        simp only [List.contains_eq_mem, decide_eq_true_eq, List.mem_cons] at this ⊢
+        exact Or.inr this
+  have := (key prog.length (Nat.le_refl _)).1
+  simpa using this
 
 end Mpc.Gc
